@@ -195,7 +195,7 @@ type Group struct {
 	Mode     string `json:"mode"`
 	Total    int    `json:"total"`
 	DataEnd  int    `json:"dataEnd"`
-	Variant  string `json:"variant"` // Read: "" | last:<tag> | unk:<r> | go:<name>
+	Variant  string `json:"variant"` // Read: "" | last:<tag> | elast:<tag>:<r> | unk:<r> | go:<name>
 	KSel     string `json:"ksel"`    // all | win
 	Opt      []int  `json:"opt"`     // stand-alone readers: positions at which the stream may legitimately end
 }
@@ -260,6 +260,24 @@ func buildFile(g *Group) []byte {
 		if last == nil {
 			vio.Fatal("no table " + tag + " in " + g.Name)
 		}
+		return sfntwalk.Assemble(d.Scaler, append(res, *last), true)
+	case strings.HasPrefix(g.Variant, "elast:"):
+		// <tag> physically last, with an EMPTY table directly in front of it: both share one offset; the empty
+		// table's tag sorts before (r = 0) or after (r = 1) every other tag
+		tag, r := g.Variant[6:10], int(g.Variant[11]-'0')
+		var res []sfntwalk.Table
+		var last *sfntwalk.Table
+		for i := range tabs {
+			if tabs[i].Tag == tag {
+				last = &tabs[i]
+			} else {
+				res = append(res, tabs[i])
+			}
+		}
+		if last == nil {
+			vio.Fatal("no table " + tag + " in " + g.Name)
+		}
+		res = append(res, sfntwalk.Table{Tag: []string{"....", "zzzy"}[r], Data: []byte{}})
 		return sfntwalk.Assemble(d.Scaler, append(res, *last), true)
 	case strings.HasPrefix(g.Variant, "unk:"):
 		r := int(g.Variant[4] - '0')
@@ -528,6 +546,12 @@ func groups(thorough bool) []*Group {
 		}
 		for _, t := range sfntwalk.Walk(base).Tables(base) {
 			addRead(fi, name, "last:"+t.Tag, ksel)
+			if len(t.Data) > 0 {
+				addRead(fi, name, "elast:"+t.Tag+":1", "win")
+				if t.Tag == "prep" || t.Tag == "gasp" || t.Tag == "glyf" || t.Tag == "CFF " {
+					addRead(fi, name, "elast:"+t.Tag+":0", "win")
+				}
+			}
 		}
 		for r := 0; r < 4; r++ {
 			addRead(fi, name, fmt.Sprintf("unk:%d", r), ksel)
